@@ -77,6 +77,75 @@ def gen(rng, quick):
     return ops
 
 
+def x_histories(ck, n):
+    """spec -> code: TLC simulates Xproto.tla on the toy curve (MC_Xproto_sim.cfg); each behaviour - a key-agreement session
+    with typed secrets, wire slots and an adversary - becomes a full-size script: toy secrets are lifted to random 32-byte
+    strings that keep the bits clamping removes, injected u values to a full-size u of the same CLASS (zero, one, minus one,
+    small order, on the curve, on the twist; non-canonical / top-bit aliases where they exist at full size)."""
+    import vlib
+    wd = os.path.join(ck.workdir, "x_sim")
+    rc, out, wall = vlib._tlc(["-workers", "1", "-simulate", "num=%d" % n, "-depth", "40", "-seed", str(ck.seed), "-config", "MC_Xproto_sim.cfg", "MC_Xproto.tla"], {}, wd, 600)
+    seen, hs = set(), []
+    for h in tlc_prints(out, "HIST"):
+        k = json.dumps(h)
+        if k not in seen:
+            seen.add(k)
+            hs.append(h)
+    if len(hs) > 2 * n:
+        hs = ck.rng.sample(hs, 2 * n)
+    if not hs:
+        raise ToolError("Xproto simulation produced no behaviours:\n" + out[-2000:])
+    rng = ck.rng
+
+    def on_curve(u):
+        v = (u * u * u + 486662 * u * u + u) % P
+        return v == 0 or pow(v, (P - 1) // 2, P) == 1
+
+    def lift_u(cls, noncanon, top):
+        if cls == "zero":
+            u = 0
+        elif cls == "one":
+            u = 1
+        elif cls == "minus1":
+            u = P - 1
+        elif cls == "small":
+            u = rng.choice(SMALL_ORDER_U[2:4])
+        else:
+            while True:
+                u = rng.randrange(2, P - 1)
+                if on_curve(u) == (cls == "curve") and u not in SMALL_ORDER_U:
+                    break
+        if noncanon and u + P < 2**255:
+            u += P
+        return u + (2**255 if top else 0)
+
+    scripts, ndh = [], 0
+    for h in hs:
+        ops, lift = [{"op": "reset"}], {}
+        for st in h:
+            if st["op"] == "new":
+                k = st["k"]
+                if k not in lift:
+                    lift[k] = (rng.getrandbits(256) & ~7 & ~(3 << 254)) | (k & 7) | ((k >> 6) << 254)
+                ops.append({"op": "xs.new", "p": st["p"], "kind": st["kind"], "in": [le(lift[k])]})
+            elif st["op"] == "publish":
+                ops.append({"op": "xs.publish", "p": st["p"], "w": st["w"]})
+            elif st["op"] == "inject":
+                ops.append({"op": "xs.inject", "w": st["w"], "in": [le(lift_u(st["cls"], st["noncanon"], st["top"]))]})
+            elif st["op"] == "alias":
+                ops.append({"op": "xs.alias", "w": st["w"], "addp": bool(st["addp"]), "top": st["top"]})
+            elif st["op"] == "copy":
+                ops.append({"op": "xs.copy", "w": st["w"], "w2": st["w2"]})
+            elif st["op"] == "dh":
+                ndh += 1
+                ops.append({"op": "xs.dh", "p": st["p"], "w": st["w"]})
+            elif st["op"] == "drop":
+                ops.append({"op": "xs.drop", "p": st["p"]})
+        scripts.append(ops)
+    ck.cov["x_sessions"] = dict(behaviours=len(scripts), dh_calls=ndh, tlc_wall_s=round(wall, 1))
+    return scripts
+
+
 def x25519_py(k, u):
     """plain RFC 7748 ladder, used only to produce the next inputs of the iterated test"""
     kb = bytearray(k.to_bytes(32, "little"))
@@ -114,7 +183,14 @@ def run(ck):
     else:
         specs = [(b, t, ()) for b in ALL_BACKENDS for t in (True, False)] + [("s64", True, ("nz",)), ("s32", False, ("nz",)), ("v2", True, ("nz",))]
     bins = build_many([(b, t, "release", f) for b, t, f in specs], jobs=3)
+    ck.mc("MC_Xproto", "MC_Xproto_29.cfg", note="key-agreement sessions to 4 steps: 2 parties x 3 secret types, 2 wire slots, adversary injecting 14 class "
+          "representatives / re-encoding / copying; agreement, contributory <=> not small order, alias independence, consumed ephemeral secrets", workers=8)
+    ck.mc("MC_Xproto", "MC_Xproto_neg.cfg", note="kept counterexample: a contributory test that only looks for u = 0 on the wire", workers=4, expect_violation=True)
+    if not quick:
+        ck.mc("MC_Xproto", "MC_Xproto_29_all.cfg", note="sessions to 3 steps with ALL 256 bytes as the adversary's alphabet", workers=8)
     ops = gen(ck.rng, quick)
+    for sc in x_histories(ck, 60 if quick else 600):
+        ops += sc
     sp = os.path.join(ck.workdir, "script.ndjson")
     spz = os.path.join(ck.workdir, "script.nz.ndjson")
     write_script(sp, ops)
